@@ -9,6 +9,9 @@ def handleLine (line : String) : String :=
     | "stackop" => StackDrv.handle rest
     | "exec" => ExecDrv.handleExec rest
     | "step" => ExecDrv.handleStep rest
+    | "scope" => (match rest with
+      | [.atom pid] => String.intercalate " " ((ExecDrv.scopeOf pid).map Instr.str)
+      | _ => "bad scope")
     | "names" => String.intercalate " " (Instr.all.map Instr.str)
     | _ => "bad kind " ++ kind
   | _ => "bad parse"
